@@ -14,6 +14,7 @@ TailDefault == {P("execp", "none"), P("evalp", "c_replace")}
 C02_Bodies == {"exec", "execp", "execpp", "eval", "evalp", "evaln", "evalnp", "comment"}
 C02_Wants  == {"none", "all", "own", "repr", "str", "c_replace", "c_append", "c_prepend", "c_drop"}
 C02_Parts  == PartSet(C02_Bodies, C02_Wants, NoDirs, {FALSE})
+              \cup {P("praise", "tb_exact"), P("raise", "tb_stack")}      \* an expected exception (after printing) must not disturb the wants that follow
 
 \* ---- C04: directive scoping
 C04_DirSeqs1 == {<<D(n, pos)>> : n \in {"SKIP", "REQa", "REQb", "REQmet"}, pos \in BOOLEAN}
